@@ -330,9 +330,28 @@ def set_type_validate(ctx):
                                            {'_r': vs.params[0]}) is not None
     run.check(okvs, 'R20', vs_outer.where, vs_outer.qualname,
               'yield from schema_validator(res.res, res, on_error=self.on_error)', 'schema validation does not use the configured policy')
-    frv = repo.func('dataflows.processors.validate:validate.row_validator.func')
-    run.check(has_stmt('return field_validator(_row.get(field))', frv.node) or has_stmt('return field_validator(_row[field])', frv.node), 'R20', frv.where, frv.qualname,
-              'field validator applied to row.get(field)', 'the field validator is applied to another value')
+    # what row_validator hands out: a function of the row that applies the field validator to that row's value of the field -
+    # a closure, or functools.partial over a module-level function
+    rvm = va_cls.methods['row_validator']
+    fpar, vpar = rvm.params[1], rvm.params[2]
+    rets_ = [r_.value for r_ in own_nodes(rvm.node) if isinstance(r_, ast.Return) and r_.value is not None]
+    okrv = len(rets_) == 1
+    if okrv:
+        rv_ = rets_[0]
+        lam = None
+        if isinstance(rv_, ast.Name):
+            inner_ = [f for f in repo.functions.values() if f.parent is rvm and not isinstance(f.node, ast.Lambda) and f.node.name == rv_.id]
+            if len(inner_) == 1 and len(inner_[0].params) == 1:
+                body_ = [x for x in inner_[0].node.body if not (isinstance(x, ast.Expr) and isinstance(x.value, ast.Constant))]
+                if len(body_) == 1 and isinstance(body_[0], ast.Return) and body_[0].value is not None:
+                    lam = (inner_[0].params[0], body_[0].value)
+        else:
+            from rules import tables as _tables
+            lam = _tables.as_lambda(ctx, rvm.module.name, rv_)
+        okrv = lam is not None and (match_expr('%s(%s.get(%s))' % (vpar, lam[0], fpar), lam[1]) is not None or
+                                    match_expr('%s(%s[%s])' % (vpar, lam[0], fpar), lam[1]) is not None)
+    run.check(okrv, 'R20', rvm.where, rvm.qualname, 'field validator applied to row.get(field)',
+              'the field validator is applied to another value')
 
 
 def check(ctx):
